@@ -26,5 +26,8 @@ def substrSpec (cs : List String) (offset length : Int) : List String :=
   let rest := cs.drop start.toNat
   if length < 0 then rest else rest.take length.toNat
 
+/-- a known string argument -/
+abbrev sv (s : String) : Value := ⟨.string, .s s⟩
+
 end Stdlib
 end CtyModel
